@@ -132,9 +132,13 @@ def sort_by_order(
     if not after and not before and len(groups) == 1:
         return next(iter(groups.values()))
     result = []
+    added = set()
 
     def add_to_result(elt: T):
         elt_name = name(elt)
+        if elt_name in added:
+            return
+        added.add(elt_name)
         for before_elt in before[elt_name]:
             add_to_result(before_elt)
         result.append(elt)
@@ -144,4 +148,8 @@ def sort_by_order(
     for value in sorted(groups):
         for elt in groups[value]:
             add_to_result(elt)
+    # elements of an after/before cycle (e.g. sequences of a class and its base in
+    # opposite order) are attached to no positioned element: never drop them
+    for elt in elts:
+        add_to_result(elt)
     return result
